@@ -23,6 +23,9 @@ type IPSet struct {
 	refs    func(name string) int // number of iptables rules referencing the set; called with mu held
 	rejects []Reject
 	ops     map[string]int
+	// FailHook, if set, is consulted (with the kernel lock held) before every operation; a returned error makes the
+	// operation fail without effect and without an entry in the reject log (the tool failed, the kernel refused nothing).
+	FailHook func(op string) error
 }
 
 // NewIPSet creates the fake.
@@ -67,6 +70,11 @@ func (f *IPSet) FlushSet(set string) error {
 	f.mu.Lock()
 	defer f.mu.Unlock()
 	f.ops["flush"]++
+	if f.FailHook != nil {
+		if err := f.FailHook("flush"); err != nil {
+			return err
+		}
+	}
 	s, ok := f.sets[set]
 	if !ok {
 		return f.reject("flush", "The set with the given name does not exist", set)
@@ -79,6 +87,11 @@ func (f *IPSet) DestroySet(set string) error {
 	f.mu.Lock()
 	defer f.mu.Unlock()
 	f.ops["destroy"]++
+	if f.FailHook != nil {
+		if err := f.FailHook("destroy"); err != nil {
+			return err
+		}
+	}
 	if _, ok := f.sets[set]; !ok {
 		return f.reject("destroy", "The set with the given name does not exist", set)
 	}
@@ -93,6 +106,11 @@ func (f *IPSet) DestroyAllSets() error {
 	f.mu.Lock()
 	defer f.mu.Unlock()
 	f.ops["destroy-all"]++
+	if f.FailHook != nil {
+		if err := f.FailHook("destroy-all"); err != nil {
+			return err
+		}
+	}
 	for name := range f.sets {
 		if f.refs != nil && f.refs(name) > 0 {
 			return f.reject("destroy", "Set cannot be destroyed: it is in use by a kernel component", name)
@@ -106,6 +124,11 @@ func (f *IPSet) CreateSet(set *ipset.IPSet, ignoreExistErr bool) error {
 	f.mu.Lock()
 	defer f.mu.Unlock()
 	f.ops["create"]++
+	if f.FailHook != nil {
+		if err := f.FailHook("create"); err != nil {
+			return err
+		}
+	}
 	if set == nil || set.Name == "" || len(set.Name) > 31 {
 		return f.reject("create", "invalid set name", fmt.Sprintf("%v", set))
 	}
@@ -197,6 +220,11 @@ func (f *IPSet) AddEntry(entry string, set *ipset.IPSet, ignoreExistErr bool) er
 	f.mu.Lock()
 	defer f.mu.Unlock()
 	f.ops["add"]++
+	if f.FailHook != nil {
+		if err := f.FailHook("add"); err != nil {
+			return err
+		}
+	}
 	parts := strings.Fields(entry)
 	if len(parts) == 0 {
 		return f.reject("add", "empty entry", set.Name)
@@ -208,6 +236,11 @@ func (f *IPSet) AddEntryWithOptions(entry *ipset.Entry, set *ipset.IPSet, ignore
 	f.mu.Lock()
 	defer f.mu.Unlock()
 	f.ops["add"]++
+	if f.FailHook != nil {
+		if err := f.FailHook("add"); err != nil {
+			return err
+		}
+	}
 	return f.add(set.Name, entry.String(), entry.Options, ignoreExistErr)
 }
 
@@ -231,6 +264,11 @@ func (f *IPSet) DelEntry(entry string, set string) error {
 	f.mu.Lock()
 	defer f.mu.Unlock()
 	f.ops["del"]++
+	if f.FailHook != nil {
+		if err := f.FailHook("del"); err != nil {
+			return err
+		}
+	}
 	parts := strings.Fields(entry)
 	if len(parts) == 0 {
 		return f.reject("del", "empty entry", set)
@@ -242,6 +280,11 @@ func (f *IPSet) DelEntryWithOptions(set, entry string, options ...string) error 
 	f.mu.Lock()
 	defer f.mu.Unlock()
 	f.ops["del"]++
+	if f.FailHook != nil {
+		if err := f.FailHook("del"); err != nil {
+			return err
+		}
+	}
 	return f.del(set, entry)
 }
 
@@ -277,6 +320,11 @@ func (f *IPSet) ListEntries(set string) ([]string, error) {
 	f.mu.Lock()
 	defer f.mu.Unlock()
 	f.ops["list"]++
+	if f.FailHook != nil {
+		if err := f.FailHook("list"); err != nil {
+			return nil, err
+		}
+	}
 	if set == "" {
 		return nil, fmt.Errorf("set name can't be nil")
 	}
@@ -291,6 +339,11 @@ func (f *IPSet) ListSets() ([]string, error) {
 	f.mu.Lock()
 	defer f.mu.Unlock()
 	f.ops["list-sets"]++
+	if f.FailHook != nil {
+		if err := f.FailHook("list-sets"); err != nil {
+			return nil, err
+		}
+	}
 	names := make([]string, 0, len(f.sets)+1)
 	for n := range f.sets {
 		names = append(names, n)
